@@ -141,19 +141,14 @@ Print Assumptions C10_table_bracketed.
 
 (* ---- the three tree-dependent constants (the ONLY lines to edit when the source tree is repaired) ---- *)
 (* handlers that touch shared state without holding requestMutex, in handler-map order *)
-Definition known_unlocked : list name := map nm [ "luahelper/getOnlineReq" ].
+Definition known_unlocked : list name := map nm [].
 (* handlers whose work is split over several critical sections (not atomic as a whole) *)
 Definition known_split : list name := map nm [].
 (* goroutines started by handlers that touch shared state without the mutex (telemetry) *)
-Definition known_bg_unlocked : list name := map nm [ "$go/handleRecv"; "$go/UDPReportOnline" ].
-(* The fix: commit 1b70b29 (work/fixes/C10-take-mutex.diff) is applied: only the telemetry sites remain.
-   AFTER the remaining planned fix (C10-telemetry-sync.diff) set all three to `map nm []`
-   (with only the first diff: known_unlocked := map nm ["luahelper/getOnlineReq"], the other two as they are except
-   known_split := map nm []).  Nothing else in the Coq development changes: the model is generic in the table;
-   C10_handlers_locked then reads `forallb locked handlers = true`, the refutation theorems become vacuous, and
-   > Theorem C10_real_race_free : forall msgs s, reachable handlers background concurrency msgs s -> ~ race s.
-   > Proof. intros msgs s. apply C10_discipline_sound. vm_compute. reflexivity. Qed.
-   can be added (it needs all three lists empty). *)
+Definition known_bg_unlocked : list name := map nm [].
+(* Both fix: commits are applied in /repo (1b70b29: every handler takes the request mutex; 4ebf311: the telemetry
+   goroutines synchronise): all three lists are empty, C10_handlers_locked reads `forallb locked handlers = true`, the
+   refutation theorems below are vacuous (their index lists are empty), and C10_real_race_free holds. *)
 
 (* THE PROPERTY THEOREM OF THE CHECK (re-proved against the regenerated table on every run):
    exactly these handlers touch shared state without holding requestMutex.  Removing a Lock() from any other
@@ -189,6 +184,13 @@ Proof.
                   tie_bracketed Hr Hrace Hi Hj)).
 Qed.
 Print Assumptions C10_races_blame_unlocked.
+
+(* THE REAL SERVER, as the translator reads it NOW: no reachable state of the dispatcher has a data race on the
+   modelled shared state (every handler and every background goroutine keeps the lock discipline) *)
+Theorem C10_real_race_free :
+  forall msgs s, reachable handlers background concurrency msgs s -> ~ race s.
+Proof. intros msgs s. apply C10_discipline_sound. vm_compute. reflexivity. Qed.
+Print Assumptions C10_real_race_free.
 
 Theorem C10_real_no_deadlock :
   forall msgs s, reachable handlers background concurrency msgs s -> complete s = false ->
